@@ -1064,16 +1064,27 @@ func (w *Worker) rangeNext(x *ssa.Next, itv Val) Val {
 			return Tuple{ts.False, ts.Const(64, 0), ts.Const(32, 0)}
 		}
 		b := w.byteAt(it.s.Obj, it.s.Off+it.pos)
+		ascii := false
 		if !b.IsConst() {
-			// assume ASCII obligation: fork on >= 0x80 being unsupported
-			if w.branch(ts.Cmp(OUle, ts.Const(8, 0x80), b)) {
-				panic(engineError{"range over string with symbolic non-ASCII byte"})
-			}
-		} else if b.C >= 0x80 {
-			panic(engineError{"range over string with non-ASCII byte"})
+			ascii = !w.branch(ts.Cmp(OUle, ts.Const(8, 0x80), b))
+		} else {
+			ascii = b.C < 0x80
 		}
-		r := Tuple{ts.True, ts.Const(64, uint64(it.pos)), ts.Zext(b, 32)}
-		it.pos++
+		if ascii {
+			r := Tuple{ts.True, ts.Const(64, uint64(it.pos)), ts.Zext(b, 32)}
+			it.pos++
+			return r
+		}
+		// a multi-byte (or invalid) sequence: decode it with the real unicode/utf8 code, whose
+		// branches on the bytes fork the path; the width it returns is concrete on every path
+		rest := Str{it.s.Obj, it.s.Off + it.pos, it.s.Len - it.pos}
+		dv := w.callNamed("unicode/utf8", "DecodeRuneInString", []Val{rest}).(Tuple)
+		size := int(w.concretize(dv[1].(*Term), "rune width"))
+		if size < 1 {
+			size = 1
+		}
+		r := Tuple{ts.True, ts.Const(64, uint64(it.pos)), dv[0].(*Term)}
+		it.pos += size
 		return r
 	}
 	for it.pos < len(it.keys) {
